@@ -15,6 +15,10 @@ import PfVerif.Driver.Acquire
 import PfVerif.Driver.Session
 import PfVerif.Driver.BisectF
 import PfVerif.Driver.HedgerPL
+import PfVerif.Driver.InstrSys
+import PfVerif.Driver.HedgerPrice
+import PfVerif.Driver.GradH
+import PfVerif.Driver.FitNum
 namespace PfVerif.Driver
 open Lean
 
@@ -56,6 +60,10 @@ def dispatch (op : String) (j : Json) : R Json :=
   | "session" => opSession j
   | "bisect_fp" => opBisectFp j
   | "hedger_pl" => opHedgerPl j
+  | "instr_sys" => opInstrSys j
+  | "hedger_price" => opHedgerPrice j
+  | "grad_h" => opGradH j
+  | "fit_num" => opFitNum j
   | _ => .error s!"unknown op {op}"
 
 end PfVerif.Driver
